@@ -30,6 +30,7 @@ type WorldOpts struct {
 	ReceiverGateAt   uint64        // value for verifier.ReceiverMismatchEnforcementHeight (default 0 = enforced from genesis)
 	KeepReceiverGate bool          // leave the shipped mainnet value
 	FastLocks        bool          // shrink lock windows consistently (DESIGN 3.2b)
+	Bridge           bool          // bridge / liquidity administrator = a key of the ring, short delays (values only)
 }
 
 func NewWorld(spec *Spec, o WorldOpts) *World {
@@ -67,6 +68,9 @@ func NewWorld(spec *Spec, o WorldOpts) *World {
 
 	if o.FastLocks {
 		w.restore = append(w.restore, applyFastLocks())
+	}
+	if o.Bridge {
+		w.restore = append(w.restore, ApplyBridgeGlobals())
 	}
 	return w
 }
